@@ -35,7 +35,7 @@ def main():
         feats = (meta.get("features") or "").strip()
         featarg = ("--features " + feats.replace("--features", "").strip()) if feats and feats not in ("none", "-") else ""
         r = dict(property=prop, name=name, summary=meta.get("summary"), site=meta.get("site"), needs=meta.get("needs"), features=feats)
-        sh("git checkout -- . && rm -f tests/seeded_demo.rs", cwd=wt)
+        sh("git checkout -- . && rm -f tests/seeded_demo.rs examples/seeded_demo.rs", cwd=wt)
         rc, o = sh("git apply --check OUT/%s/patch.diff && git apply OUT/%s/patch.diff" % (name, name), cwd=wt)
         r["applies"] = rc == 0
         if rc != 0:
@@ -47,10 +47,18 @@ def main():
         r["builds_all_features"] = "error" not in o
         rc, o = sh("cargo test --workspace --no-fail-fast --offline 2>&1 | grep -E '^test result|FAILED|failed' ", cwd=wt, env=env)
         r["baseline_passes"] = ("FAILED" not in o and "failed;" in o and all(" 0 failed" in l for l in o.splitlines() if l.startswith("test result")))
-        shutil.copy(os.path.join(d, "demo.rs"), os.path.join(wt, "tests", "seeded_demo.rs"))
-        rc1, o1 = sh("cargo test --offline %s --test seeded_demo 2>&1" % featarg, cwd=wt, env=env)
-        o1 = o1[-1500:]
-        r["demo_fails_with_change"] = rc1 != 0 and ("FAILED" in o1 or "panicked" in o1 or "failed" in o1)
+        script = os.path.exists(os.path.join(d, "demo.sh"))
+        if script:
+            # trace/timing demonstrations (C01): an example program plus a script that exits 1 when the traces differ
+            os.makedirs(os.path.join(wt, "examples"), exist_ok=True)
+            shutil.copy(os.path.join(d, "demo.rs"), os.path.join(wt, "examples", "seeded_demo.rs"))
+            rc1, o1 = sh("sh OUT/%s/demo.sh 2>&1" % name, cwd=wt, env=env)
+            r["demo_fails_with_change"] = rc1 == 1
+        else:
+            shutil.copy(os.path.join(d, "demo.rs"), os.path.join(wt, "tests", "seeded_demo.rs"))
+            rc1, o1 = sh("cargo test --offline %s --test seeded_demo 2>&1" % featarg, cwd=wt, env=env)
+            o1 = o1[-1500:]
+            r["demo_fails_with_change"] = rc1 != 0 and ("FAILED" in o1 or "panicked" in o1 or "failed" in o1)
         # framework check against the changed tree, from a private copy of /verif
         det = {}
         for cp in check_props:
@@ -58,7 +66,7 @@ def main():
             os.makedirs(run_root, exist_ok=True)
             sh("rsync -a --delete --exclude work --exclude .git --exclude evidence --exclude seeded --exclude experiments %s/ %s/" % (VERIF, run_root))
             os.makedirs(os.path.join(run_root, "evidence"), exist_ok=True)
-            sh("sed -i 's#path = \"/repo\"#path = \"%s\"#' harness/Cargo.toml" % wt, cwd=run_root)
+            sh("sed -i 's#path = \"/repo\"#path = \"%s\"#' harness/Cargo.toml leak/Cargo.toml" % wt, cwd=run_root)
             rc, o = sh("./check %s quick 2>&1 | cut -c1-400" % cp, cwd=run_root, env=env, timeout=5400)
             viol = [l for l in o.splitlines() if l.startswith("VIOLATION")]
             det[cp] = dict(exit=rc, violations=len(viol), tool_error=("TOOL-ERROR" in o), wall=round(time.time() - t0),
@@ -68,9 +76,12 @@ def main():
         r["checks"] = det
         # restore and run the demo on the unchanged tree
         sh("git checkout -- .", cwd=wt)
-        rc2, o2 = sh("cargo test --offline %s --test seeded_demo 2>&1" % featarg, cwd=wt, env=env)
+        if script:
+            rc2, o2 = sh("sh OUT/%s/demo.sh 2>&1" % name, cwd=wt, env=env)
+        else:
+            rc2, o2 = sh("cargo test --offline %s --test seeded_demo 2>&1" % featarg, cwd=wt, env=env)
         r["demo_passes_without_change"] = rc2 == 0
-        sh("rm -f tests/seeded_demo.rs", cwd=wt)
+        sh("rm -f tests/seeded_demo.rs examples/seeded_demo.rs", cwd=wt)
         r["confirmed"] = bool(r["applies"] and r["builds_all_features"] and r["baseline_passes"] and r["demo_fails_with_change"] and r["demo_passes_without_change"])
         results.append(r)
         if r["confirmed"]:
@@ -78,6 +89,8 @@ def main():
             os.makedirs(dst, exist_ok=True)
             shutil.copy(os.path.join(d, "patch.diff"), dst)
             shutil.copy(os.path.join(d, "demo.rs"), dst)
+            if script:
+                shutil.copy(os.path.join(d, "demo.sh"), dst)
             m2 = dict(meta, confirmed=dict(applies=True, builds_all_features=True, baseline_suite_passes=True, demo_fails_with_change=True, demo_passes_without_change=True),
                       framework=dict(checks_run=["./check %s quick" % cp for cp in check_props], detected_by=r["detected_by"],
                                      detail={cp: {k: v for k, v in det[cp].items() if k in ("exit", "violations", "tool_error", "wall", "first")} for cp in det}),
